@@ -44,6 +44,108 @@ def build_model(rng):
     return m
 
 
+def build_family(rng):
+    """2..4 constraints 'marker*x_j [+ c*x_l] + f <rel> rhs' whose nonlinear parts f are drawn from a pool of one or two expressions (abs, max, min of
+    original variables), so the auxiliary variable and the rows/functional constraints that encode f are images of several original constraints;
+    nothing else nonlinear in the model, hence every original constraint is identified by its marker and the image relation is complete"""
+    m = gen_nl.Model()
+    nv = rng.randint(3, 5)
+    for _ in range(nv):
+        if rng.random() < 0.3:
+            lo = rng.randint(-3, 2); m.vars.append(dict(lb=Fr(lo), ub=Fr(lo + rng.randint(1, 4)), type='i'))
+        else:
+            lo = Fr(rng.randint(-8, 4), 2); m.vars.append(dict(lb=lo, ub=lo + Fr(rng.randint(1, 12), 2), type='c'))
+    m.vars.sort(key=lambda v: 'cbi'.index(v['type']))
+    def shared():
+        k = rng.randrange(4); a, b = rng.sample(range(nv), 2)
+        return [('abs', ('v', a)), ('max', [('v', a), ('v', b)]), ('min', [('v', a), ('v', b)]), ('abs', ('-', ('v', a), ('v', b)))][k]
+    pool = [shared() for _ in range(rng.choice([1, 1, 2]))]
+    nf = rng.randint(2, 4)
+    for t in range(nf):
+        f = rng.choice(pool)
+        if rng.random() < 0.25 and len(pool) > 1:
+            f = ('+', pool[0], pool[1])
+        if rng.random() < 0.3:
+            f = ('*', ('n', Fr(rng.choice([2, 3, -1, -2]))), f)
+        js = rng.sample(range(nv), rng.randint(1, 2))
+        lin = {j: Fr(rng.choice([-3, -2, -1, 1, 2, 3]), rng.choice([1, 2])) for j in js}
+        lin[js[0]] = Fr(211 + 2 * t, 8) * rng.choice([1, -1])
+        kind = rng.choice(['le', 'ge', 'eq', 'le', 'ge'])
+        a = Fr(rng.randint(-24, 24), 4)
+        lb, ub = {'le': (-math.inf, a), 'ge': (a, math.inf), 'eq': (a, a)}[kind]
+        m.cons.append(dict(expr=f, lin=lin, lb=lb, ub=ub, family=True, mark=(js[0], lin[js[0]])))
+    for t in range(rng.randint(1, 3)):       # plus ordinary marker rows
+        js = rng.sample(range(nv), rng.randint(1, 3))
+        lin = {j: Fr(rng.choice([-5, -3, -2, -1, 1, 2, 3, 5]), rng.choice([1, 2, 4])) for j in js}
+        lin[js[0]] = Fr(97 + 2 * t, 8) * rng.choice([1, -1])
+        kind = rng.choice(['range', 'le', 'ge', 'eq'])
+        a = Fr(rng.randint(-24, 24), 4); b = a + Fr(rng.randint(1, 40), 4)
+        lb, ub = {'range': (a, b), 'le': (-math.inf, b), 'ge': (a, math.inf), 'eq': (a, a)}[kind]
+        m.cons.insert(rng.randint(0, len(m.cons)), dict(expr=None, lin=lin, lb=lb, ub=ub, kind=kind, marker=True, mark=(js[0], lin[js[0]])))
+    if rng.random() < 0.5:
+        m.objs.append(dict(sense=rng.randint(0, 1), expr=None, lin={rng.randrange(nv): Fr(1)}))
+    return m
+
+
+def con_vars(c):
+    """all variable indices a delivered constraint mentions"""
+    out = set()
+    def walk(d, key=None):
+        if isinstance(d, dict):
+            for k2, v in d.items():
+                walk(v, k2)
+        elif isinstance(d, list):
+            if key in ('v', 'v1', 'v2', 'args', 'vars'):
+                out.update(int(t) for t in d)
+        elif isinstance(d, int) and key in ('res', 'b', 'var') and d >= 0:
+            out.add(d)
+    walk(c['data'])
+    return out
+
+
+def images(tr, m):
+    """NL constraint index -> set of (group, gidx) of the delivered constraints that encode it: the row carrying its marker coefficient and
+    everything connected to that row through auxiliary variables; None if a marker is not found exactly once"""
+    nv = len(m.vars)
+    cv = [(c, con_vars(c)) for c in tr.cons]
+    out = {}
+    tops = {}
+    for i, c in enumerate(m.cons):
+        j, coef = c['mark']
+        top = []
+        for d, vs in cv:
+            if d['type'] in LIN:
+                b = d['data']['body']
+                if any(vv == j and flat_eval.num(cc) == float(coef) for cc, vv in zip(b['c'], b['v'])):
+                    top.append(d)
+        if len(top) != 1:
+            return None
+        tops[i] = top[0]
+    topkeys = {(d['group'], d['gidx']) for d in tops.values()}
+    for i, c in enumerate(m.cons):
+        top = [tops[i]]
+        img = {(top[0]['group'], top[0]['gidx'])}
+        aux = {v for v in con_vars(top[0]) if v >= nv}
+        grew = True
+        while grew:
+            grew = False
+            for d, vs in cv:
+                key = (d['group'], d['gidx'])
+                if key in topkeys:
+                    continue                  # the row of another original constraint uses the shared auxiliary variable, it does not encode it
+                if key not in img and vs & aux:
+                    img.add(key); new = {v for v in vs if v >= nv} - aux
+                    aux |= new; grew = True
+        out[i] = img
+    return out
+
+
+def max_nonzero(vals):
+    """the documented conflict rule of a value node: among the values arriving, the largest non-zero one; 0 if all are 0"""
+    nz = [v for v in vals if v]
+    return max(nz) if nz else 0
+
+
 def identify(tr, m):
     """NL constraint index -> dict(gidx, slack) for purely linear constraints whose delivered row is found by content (unique both ways)."""
     nv = len(m.vars)
@@ -118,7 +220,8 @@ def main(tier, seed):
 
     def one(k):
         rng = random.Random('%d/%d' % (seed, k))
-        m = build_model(rng)
+        fam = rng.random() < 0.3
+        m = build_family(rng) if fam else build_model(rng)
         nv, nalg, nlog = len(m.vars), len(m.cons), len(m.lcons)
         accsel = rng.randrange(4)
         acc = [{'*': 2}, {'*': 0, 'LinConLE': 2, 'LinConEQ': 2, 'LinConGE': 2}, None, {'*': 2, 'QuadConRange': 0, 'LinConRange': rng.choice([0, 2])}][accsel]
@@ -134,9 +237,13 @@ def main(tier, seed):
         in_cst = [rng.choice([1, 3, 4, 5]) for _ in range(nalg)]
         in_pri = [rng.randint(0, 9) * 7 + j for j in range(nv)]
         in_lazy = [rng.choice([0, 1, 2, 3, -1]) for _ in range(nalg)]
+        if fam:
+            in_lazy = [rng.choice([0, 0, 1, 2, 3, -1, -2]) for _ in range(nalg)]
         have_x0 = rng.random() < 0.7
         x0 = {j: Fr(rng.randint(-40, 40), 4) + Fr(j, 8) for j in range(nv)} if have_x0 else {}
         d0 = {i: Fr(rng.randint(1, 400), 8) + i * 64 for i in range(nalg)} if have_x0 else {}
+        if fam and have_x0:           # shared images: zeros and negative duals make the conflict rule visible
+            d0 = {i: rng.choice([Fr(0), Fr(0), Fr(rng.randint(-40, 40), 4), Fr(-rng.randint(1, 40), 4)]) for i in range(nalg)}
         if have_sst:
             m.suffixes.append(dict(kind=0, float=False, name='sstatus', values=dict(enumerate(in_vst))))
             m.suffixes.append(dict(kind=1, float=False, name='sstatus', values=dict(enumerate(in_cst))))
@@ -170,10 +277,14 @@ def main(tier, seed):
         if rng.random() < 0.5:              # a warm start inside the variable bounds
             hx = [v['lb'] + (v['ub'] - v['lb']) * Fr(rng.randint(0, 4), 4) if v['type'] == 'c' else Fr(rng.randint(int(v['lb']), int(v['ub']))) for v in m.vars]
         hy = [Fr(rng.randint(1, 40), 4) + 16 * i for i in range(nalg)]
+        if fam:
+            hy = [rng.choice([Fr(0), Fr(0), Fr(rng.randint(-40, 40), 4), Fr(-rng.randint(1, 40), 4)]) for i in range(nalg)]
         hbv = [rng.choice([1, 3, 4, 6]) for _ in range(nv)]
         hbc = [rng.choice([1, 3, 4]) for _ in range(ncon_src)]
         hiv = [rng.choice([0, 1000 + j]) for j in range(nv)]
         hic = [rng.choice([0, 2000 + i, 2000 + i]) for i in range(ncon_src)]
+        if fam:
+            hic = [rng.choice([0, 0, 3 + i, -1 - i, rng.randint(-3, 3)]) for i in range(ncon_src)]
         S += ['hx ' + ' '.join(str(float(v)) for v in hx), 'hy ' + ' '.join(str(float(v)) for v in hy), 'hbv ' + ' '.join(map(str, hbv)), 'hbc ' + ' '.join(map(str, hbc)),
               'hiv ' + ' '.join(map(str, hiv)), 'hic ' + ' '.join(map(str, hic))]
         ops = ['postsol', 'postbasis', 'postiis', 'presol', 'prebasis', 'preint', 'prelazy']
@@ -308,10 +419,36 @@ def main(tier, seed):
                     if got != want:
                         bad('%s:value-lands-on-wrong-row:%s' % (what, f['type']), 'NL constraint %d -> row %d of group 3: got %r, expected %r' % (i, g, got, want)); return
 
+        img = images(tr, m) if fam else None
+        info['fam'] = bool(fam); info['fam_images'] = 0; info['fam_shared'] = 0
+        owners = {}
+        if img:
+            for i, st in img.items():
+                for key in st:
+                    owners.setdefault(key, []).append(i)
+            info['fam_images'] = len(owners); info['fam_shared'] = sum(1 for o in owners.values() if len(o) > 1)
+
+        def chk_images(e, incon, what, mode):
+            """a value given for an original constraint lands on every delivered constraint that encodes it; a delivered constraint shared by
+            several original ones receives the documented combination (largest non-zero value)"""
+            if not img or incon is None:
+                return
+            info['transfers'] += 1
+            for (g, gi), own in sorted(owners.items()):
+                vec = e['con'].get(str(g), [])
+                got = flat_eval.num(vec[gi]) if gi < len(vec) else 0
+                if mode == 'basis' and any(m.cons[i].get('kind') == 'range' for i in own):
+                    continue                    # range rows through a slack have their own mapping (checked above)
+                want = max_nonzero([incon[i] for i in own if i < len(incon)])
+                if got != want:
+                    bad('%s:value-does-not-reach-the-images-of-its-constraint:%s' % (what, 'shared' if len(own) > 1 else 'single'),
+                        'delivered constraint %d of group %d encodes NL constraints %s given %s: got %r, expected %r (largest non-zero)' % (gi, g, own, [incon[i] for i in own if i < len(incon)], got, want)); return
+
         for nm, invar, incon, mode in (('presol', [float(v) for v in hx], [float(v) for v in hy], 'dbl'), ('prebasis', hbv, hbc, 'basis'), ('preint', hiv, hic, 'int'), ('prelazy', None, hic, 'int')):
             e = (evs.get(nm) or [None])[0]
             if e:
                 chk_pre(e, invar, incon, 'history-' + nm, mode)
+                chk_images(e, incon, 'history-' + nm, mode)
         # ---- the real incoming flow
         for e in evs.get('SetBasis', []):
             if e['in_var'] != in_vst or e['in_con'][:nalg] != in_cst:
@@ -326,11 +463,13 @@ def main(tier, seed):
             bad('priorities-not-forwarded', 'priority suffix given, no VarPriorities call')
         for e in evs.get('MarkLazyOrUserCuts', []):
             chk_pre(e, None, in_lazy, 'MarkLazyOrUserCuts', 'int')
+            chk_images(e, in_lazy, 'MarkLazyOrUserCuts', 'int')
         if have_lazy and any(in_lazy) and not evs.get('MarkLazyOrUserCuts'):
             bad('lazy-flags-not-forwarded', 'lazy suffix given, no MarkLazyOrUserCuts call')
         fx0 = [float(x0.get(j, 0)) for j in range(nv)]; fd0 = [float(d0.get(i, 0)) for i in range(nalg)]
         for e in evs.get('AddPrimalDualStart', []):
             chk_pre(e, fx0, fd0, 'AddPrimalDualStart', 'dbl')
+            chk_images(e, fd0, 'AddPrimalDualStart', 'dbl')
         for e in evs.get('AddMIPStart', []):
             chk_pre(e, fx0, None, 'AddMIPStart', 'dbl')
         if have_x0 and not evs.get('AddMIPStart'):
@@ -390,6 +529,9 @@ def main(tier, seed):
     for k, res, info in run.pmap_proc(one, range(ncases), chunk=4):
         ctx.count('%d|%s|%s|%s' % (info['acc'], ','.join(info['kinds']), info['shape'], ','.join(info['hist'])), nontrivial=info['nident'] >= 2 and info['grew'])
         ctx.bump('identified_linear_rows', info['nident'])
+        ctx.bump('shared_image_models', 1 if info.get('fam') else 0)
+        ctx.bump('shared_image_models_delivered_constraints_judged', info.get('fam_images', 0))
+        ctx.bump('shared_image_models_delivered_constraints_with_several_owners', info.get('fam_shared', 0))
         ctx.bump('transfers_checked', info['transfers'])
         ctx.bump('quadratic_ranges_through_slack', info['nquad'])
         ctx.bump('rows_through_slack', 1 if 'EQ+slack' in info['kinds'] else 0)
